@@ -110,6 +110,13 @@ def work(args):
                 moves.append(tuple(F(R.choice([-2, -1, 1, 3])) if j == ax else F(0) for j in range(3)))
             else:
                 moves.append(tuple(F(R.randint(-8, 8), R.choice([1, 2, 4])) for _ in range(3)))
+        if R.random() < 0.4:
+            # destination-driven history: the object ARRIVES at the generated position by its last move (the generator's special
+            # positions -- axis-aligned, tiny-lattice, hash-twin shapes -- are then positions of a moved object, not only of fresh ones)
+            tot = E.ZERO3
+            for mv in moves:
+                tot = add(tot, mv)
+            X0 = translate(X0, tuple(-c for c in tot))
         others = {'plane': ('PL', G.pt(3), G.dirv(2)), 'line': ('L', G.pt(3), G.dirv(2)), 'seg': ('S', G.pt(3), G.pt(3))}
         if others['seg'][1] == others['seg'][2]:
             others['seg'] = ('S', others['seg'][1], add(others['seg'][1], V(1, 1, 0)))
